@@ -173,7 +173,13 @@ where
         last_eval = Some(better);
 
         if rounds > max_optimize_rounds {
-            break;
+            // the last evaluation was compiled with the fee of the round before it,
+            // returning it would hand out a tx whose body fee differs from the reported one
+            return Err(Error::CompileError(
+                tx3_tir::compile::Error::ConsistencyError(
+                    "fees did not converge within the max optimize rounds".to_string(),
+                ),
+            ));
         }
 
         rounds += 1;
